@@ -53,6 +53,28 @@ func c06Universe(r *core.Rand, limits []uint32) []inputs.Input {
 
 func (c *c06) Plan(seed uint64, tier string, worker, workers, idx int) *Plan {
 	r := core.NewRand(core.Mix(seed, 0xc06, uint64(worker), uint64(idx)))
+	if r.Chance(1, 8) {
+		// detections only, over the pool-dirtying / shape-sensitive inputs of the C04
+		// workload: races between two detections need particular input shapes
+		// (deep paths, big CSV, ...) that the small inputs below never have
+		p := (&c04{}).Plan(seed, tier, worker, workers, idx)
+		p.Prop = "C06"
+		for len(p.Tasks) < 2 {
+			p.Tasks = append(p.Tasks, append([]Op(nil), p.Tasks[0]...))
+		}
+		total := 0
+		for ti := range p.Tasks {
+			var ops []Op
+			for _, op := range p.Tasks[ti] {
+				if op.Kind != "setlimit" && total < 20 {
+					ops = append(ops, op)
+					total++
+				}
+			}
+			p.Tasks[ti] = ops
+		}
+		return p
+	}
 	// run-unique limit values
 	pool := append([]uint32(nil), c06LimitPool...)
 	for i := len(pool) - 1; i > 0; i-- {
